@@ -13,7 +13,7 @@ def register(m):
     m("C13", "c13-volume-limits-xy-swapped", AN, "(y, y_from, y_to), (x, x_from, x_to))", "(y, x_from, x_to), (x, y_from, y_to))", "J6")
     m("C13", "c13-stokes-uses-field-not-curl", AN, "    return flux_across_surface(field_rotor_vector_field, surface, parameter_and_limits1,", "    return flux_across_surface(field, surface, parameter_and_limits1,", "J3")
     m("C13", "c13-planar-flux-missing-element", AN, "    flux_value = integrate(field_dot_norm_value * curve_element_magnitude_value,", "    flux_value = integrate(field_dot_norm_value,", "J4")
-    m("C13", "c13-divergence-without-area", AN, "    flux_value = integrate(field_divergence * surface_element_magnitude,", "    flux_value = integrate(field_divergence,", "J5")
+    m("C13", "c13-divergence-without-area", AN, "    flux_value = integrate(field_divergence_applied * surface_element_magnitude,", "    flux_value = integrate(field_divergence_applied,", "J5")
     m("C13", "c13-curve-element-not-derivative", EL, "    trajectory_element_sympy_vector = diff(trajectory_sympy_vector, parameter)", "    trajectory_element_sympy_vector = trajectory_sympy_vector", ("J1", "J4"))
     m("C13", "c13-rewrite-ok", AN, "    integrand = dot_vectors(field_applied, curve_element_vector)\n    circulation_value = integrate(integrand, (parameter, parameter_from, parameter_to))",
       "    circulation_value = integrate(dot_vectors(curve_element_vector, field_applied), (parameter, parameter_from, parameter_to))", "SILENT")
